@@ -39,63 +39,85 @@ Theorem C12_lost_class_emptied : forall (content : Type) (empty : content) deriv
 Proof. exact lost_class_emptied. Qed.
 Print Assumptions C12_lost_class_emptied.
 
-(* ---- gov roles: for EVERY history of role operations, export + re-import restores everything
-   except that every role blacklist is empty afterwards *)
-Theorem C12_roles_reimport_after_any_history : forall ops,
+(* ---- gov roles.  [reimport_roles blk]: blk = "InitGenesis runs the role-blacklist loop"; which of the
+   two the code does is read from the tree by the translator ([gov_restores_blacklists]) and used by
+   the correspondence.  For EVERY history of role operations, export + re-import restores everything,
+   except that WITHOUT the loop every role blacklist is empty afterwards. *)
+Theorem C12_roles_reimport_after_any_history : forall blk ops,
   let s := roles_run ops in
-  registry (reimport_roles s) = drop_blacklists (registry s) /\ infos (reimport_roles s) = infos s /\
-  next_role (reimport_roles s) = next_role s /\ (forall e, In e (windex (reimport_roles s)) <-> In e (windex s)).
+  registry (reimport_roles blk s) = (if blk then registry s else drop_blacklists (registry s)) /\
+  infos (reimport_roles blk s) = infos s /\ next_role (reimport_roles blk s) = next_role s /\
+  (forall e, In e (windex (reimport_roles blk s)) <-> In e (windex s)).
 Proof. exact reimport_after_history. Qed.
 Print Assumptions C12_roles_reimport_after_any_history.
 
+(* with the loop: the full round trip for every reachable role state *)
+Theorem C12_roles_roundtrip_with_blacklist_loop : forall s, roles_wf s ->
+  registry (reimport_roles true s) = registry s /\ infos (reimport_roles true s) = infos s /\
+  next_role (reimport_roles true s) = next_role s /\ (forall e, In e (windex (reimport_roles true s)) <-> In e (windex s)).
+Proof. exact roundtrip_roles_with_blacklists. Qed.
+Print Assumptions C12_roles_roundtrip_with_blacklist_loop.
+
 Theorem C12_roles_roundtrip_partial : forall s, roles_wf s -> no_blacklists s ->
-  registry (reimport_roles s) = registry s /\ infos (reimport_roles s) = infos s /\
-  next_role (reimport_roles s) = next_role s /\ (forall e, In e (windex (reimport_roles s)) <-> In e (windex s)).
+  registry (reimport_roles false s) = registry s /\ infos (reimport_roles false s) = infos s /\
+  next_role (reimport_roles false s) = next_role s /\ (forall e, In e (windex (reimport_roles false s)) <-> In e (windex s)).
 Proof. exact roundtrip_roles_partial. Qed.
 Print Assumptions C12_roles_roundtrip_partial.
 
-(* full statement refuted; the witness also shows the consequence: a permission denied before the
-   re-import (blacklisted through one role, whitelisted through another) is allowed after it *)
+(* without the loop the full statement is refuted; the witness also shows the consequence: a permission
+   denied before the re-import (blacklisted through one role, whitelisted through another) is allowed after it *)
 Theorem C12_roles_roundtrip_refuted :
-  exists s, roles_wf s /\ registry (reimport_roles s) <> registry s /\
-            role_allows s [3; 4] 11 = false /\ role_allows (reimport_roles s) [3; 4] 11 = true.
+  exists s, roles_wf s /\ registry (reimport_roles false s) <> registry s /\
+            role_allows s [3; 4] 11 = false /\ role_allows (reimport_roles false s) [3; 4] 11 = true.
 Proof. exact roundtrip_roles_refuted. Qed.
 Print Assumptions C12_roles_roundtrip_refuted.
 
 Theorem C12_roles_roundtrip_refuted_by_history :
-  exists ops, registry (reimport_roles (roles_run ops)) <> registry (roles_run ops).
+  exists ops, registry (reimport_roles false (roles_run ops)) <> registry (roles_run ops).
 Proof. exact roundtrip_after_history_refuted. Qed.
 Print Assumptions C12_roles_roundtrip_refuted_by_history.
 
-(* ---- gov proposals: the round trip holds exactly when both queues are empty ... *)
-Theorem C12_proposals_roundtrip_iff : forall s, reimport_props s = s <-> active_q s = [] /\ enact_q s = [].
+(* ---- gov proposals.  [reimport_props rebuild now]: rebuild = "InitGenesis puts imported proposals back
+   into the active / enactment queues" ([gov_rebuilds_queues]).  Without it the round trip holds exactly
+   when both queues are empty ... *)
+Theorem C12_proposals_roundtrip_iff : forall now s, reimport_props false now s = s <-> active_q s = [] /\ enact_q s = [].
 Proof. exact roundtrip_props_iff. Qed.
 Print Assumptions C12_proposals_roundtrip_iff.
 
-Theorem C12_proposals_roundtrip_refuted : exists s, reimport_props s <> s.
+Theorem C12_proposals_roundtrip_refuted : exists now s, reimport_props false now s <> s.
 Proof. exact roundtrip_props_refuted. Qed.
 Print Assumptions C12_proposals_roundtrip_refuted.
 
-(* ... and after a re-import no sequence of blocks ever finalises or enacts anything: a proposal
-   exported while in voting or in enactment is frozen for ever, whatever the tally would decide *)
-Theorem C12_reimport_freezes_proposals : forall decide ts s, run_blocks decide (reimport_props s) ts = reimport_props s.
+(* ... and no sequence of blocks ever finalises or enacts anything: a proposal exported while in voting
+   or in enactment is frozen for ever, whatever the tally would decide *)
+Theorem C12_reimport_freezes_proposals : forall decide now ts s,
+  run_blocks decide (reimport_props false now s) ts = reimport_props false now s.
 Proof. exact reimport_freezes_proposals. Qed.
 Print Assumptions C12_reimport_freezes_proposals.
 
-(* ---- multistaking *)
+(* with the rebuild: proposals, id counter and both queues (as sets) survive *)
+Theorem C12_proposals_roundtrip_with_rebuild : forall now s, queues_sound now s ->
+  proposals (reimport_props true now s) = proposals s /\ next_prop (reimport_props true now s) = next_prop s /\
+  (forall id, In id (active_q (reimport_props true now s)) <-> In id (active_q s)) /\
+  (forall id, In id (enact_q (reimport_props true now s)) <-> In id (enact_q s)).
+Proof. exact roundtrip_props_with_rebuild. Qed.
+Print Assumptions C12_proposals_roundtrip_with_rebuild.
+
+(* ---- multistaking.  [reimport_ms ctr]: ctr = "InitGenesis continues the id counters after the highest
+   imported id" ([ms_restores_counters]). *)
 Theorem C12_multistaking_roundtrip_iff : forall s,
-  reimport_ms s = s <-> last_pool s = 0 /\ last_undel s = 0 /\ delegators s = [] /\ compound s = [].
+  reimport_ms false s = s <-> last_pool s = 0 /\ last_undel s = 0 /\ delegators s = [] /\ compound s = [].
 Proof. exact roundtrip_ms_iff. Qed.
 Print Assumptions C12_multistaking_roundtrip_iff.
 
-Theorem C12_multistaking_roundtrip_refuted : exists s, ms_wf s /\ reimport_ms s <> s.
+Theorem C12_multistaking_roundtrip_refuted : exists s, ms_wf s /\ reimport_ms false s <> s.
 Proof. exact roundtrip_ms_refuted. Qed.
 Print Assumptions C12_multistaking_roundtrip_refuted.
 
-(* the first undelegation after the re-import takes id 1 and overwrites the restored record ... *)
+(* without the counters the first undelegation after the re-import takes id 1 and overwrites the restored record ... *)
 Theorem C12_reimport_undelegation_overwrites : forall s o o',
   zlookup 1 (undels s) = Some o ->
-  let s' := undelegate (reimport_ms s) o' in
+  let s' := undelegate (reimport_ms false s) o' in
   last_undel s' = 1 /\ zlookup 1 (undels s') = Some o' /\ List.length (undels s') = List.length (undels s).
 Proof. exact reimport_undelegation_overwrites. Qed.
 Print Assumptions C12_reimport_undelegation_overwrites.
@@ -106,9 +128,45 @@ Proof. exact original_undelegation_adds. Qed.
 Print Assumptions C12_original_undelegation_adds.
 
 Theorem C12_reimport_pool_id_collision : forall s v v',
-  In (1, v) (pools s) -> let s' := new_pool (reimport_ms s) v' in In (1, v) (pools s') /\ In (1, v') (pools s').
+  In (1, v) (pools s) -> let s' := new_pool (reimport_ms false s) v' in In (1, v) (pools s') /\ In (1, v') (pools s').
 Proof. exact reimport_pool_id_collision. Qed.
 Print Assumptions C12_reimport_pool_id_collision.
+
+(* with the counters, for EVERY state: every restored undelegation survives the next undelegation, which
+   adds a fresh record; the next pool gets an id no restored pool has *)
+Theorem C12_reimport_with_counters_preserves_undelegations : forall s o',
+  let s' := undelegate (reimport_ms true s) o' in
+  (forall id o, zlookup id (undels s) = Some o -> zlookup id (undels s') = Some o) /\
+  List.length (undels s') = S (List.length (undels s)).
+Proof. exact reimport_with_counters_preserves_undelegations. Qed.
+Print Assumptions C12_reimport_with_counters_preserves_undelegations.
+
+Theorem C12_reimport_with_counters_fresh_pool_id : forall s v,
+  let s' := new_pool (reimport_ms true s) v in ~ In (last_pool s') (map fst (pools s)).
+Proof. exact reimport_with_counters_fresh_pool_id. Qed.
+Print Assumptions C12_reimport_with_counters_fresh_pool_id.
+
+(* ---- gov identity registrar: records, counter and the by-address index (as a set) round-trip for every
+   well-formed state; the well-formedness is needed (a dangling index entry is not rebuilt) *)
+Theorem C12_identity_roundtrip : forall s, id_wf s ->
+  id_records (reimport_id s) = id_records s /\ id_last (reimport_id s) = id_last s /\
+  (forall e, In e (id_index (reimport_id s)) <-> In e (id_index s)).
+Proof. exact roundtrip_id. Qed.
+Print Assumptions C12_identity_roundtrip.
+
+Theorem C12_identity_roundtrip_needs_wf : exists s, ~ (forall e, In e (id_index (reimport_id s)) <-> In e (id_index s)).
+Proof. exact roundtrip_id_needs_wf. Qed.
+Print Assumptions C12_identity_roundtrip_needs_wf.
+
+(* ---- distributor: once a block has run the state round-trips exactly (treasury, snap period, validator
+   votes, previous proposer, snapshots); before the first block the export itself panics *)
+Theorem C12_distributor_roundtrip : forall s p, d_proposer s = Some p -> NoDup (d_votes s) -> reimport_distr s = Ok s.
+Proof. exact roundtrip_distr. Qed.
+Print Assumptions C12_distributor_roundtrip.
+
+Theorem C12_distributor_export_before_first_block : forall s, d_proposer s = None -> reimport_distr s = Panic "previous proposer not set".
+Proof. exact distr_export_before_first_block. Qed.
+Print Assumptions C12_distributor_export_before_first_block.
 
 (* ---- staking *)
 Theorem C12_staking_roundtrip_iff : forall s, reimport_st s = s <-> jail_info s = [].
@@ -148,7 +206,7 @@ Print Assumptions C12_checker_flags_lost_classes.
 (* ---- non-vacuity *)
 Example C12_nonvacuous_roles : (* a reachable state with two roles, a whitelist and no blacklist round-trips *)
   let s := roles_run [OCreateRole; OCreateRole; OWhitelistRole 1 10; OWhitelistRole 2 11; OWhitelistRole 2 12] in
-  roles_wf s /\ no_blacklists s /\ registry s = [(1, mkPerms [10] []); (2, mkPerms [11; 12] [])] /\ registry (reimport_roles s) = registry s.
+  roles_wf s /\ no_blacklists s /\ registry s = [(1, mkPerms [10] []); (2, mkPerms [11; 12] [])] /\ registry (reimport_roles false s) = registry s.
 Proof.
   cbv zeta. split; [apply roles_run_inv|]. split; [|split; vm_compute; reflexivity].
   intros id p H. vm_compute in H. destruct H as [E|[E|[]]]; inversion E; reflexivity.
@@ -157,10 +215,18 @@ Qed.
 Example C12_nonvacuous_proposals : (* on the original chain the pending proposal IS finalised and enacted *)
   let s := mkProps [mkProp 1 Pending 600 900] [1] [] 2 in
   map p_result (proposals (run_blocks (fun _ => Passed) s [700; 1000])) = [Passed] /\
-  map p_result (proposals (run_blocks (fun _ => Passed) (reimport_props s) [700; 1000])) = [Pending].
-Proof. vm_compute. split; reflexivity. Qed.
+  map p_result (proposals (run_blocks (fun _ => Passed) (reimport_props false 0 s) [700; 1000])) = [Pending] /\
+  map p_result (proposals (run_blocks (fun _ => Passed) (reimport_props true 0 s) [700; 1000])) = [Passed].
+Proof. vm_compute. repeat split; reflexivity. Qed.
+
+Example C12_nonvacuous_identity_distributor :
+  id_wf (mkId [(1, 101); (2, 102); (3, 201)] [(201, 3); (101, 1); (102, 2)] 3) /\
+  reimport_distr (mkDistr 1711 1000 [(0, 5); (1, 5); (0, 6)] (Some 1) (7, 8) (9, 10)) = Ok (mkDistr 1711 1000 [(0, 5); (1, 5); (0, 6)] (Some 1) (7, 8) (9, 10)).
+Proof.
+  split; [|vm_compute; reflexivity]. unfold id_wf; cbn. repeat split; try (repeat constructor; cbn; intuition discriminate); intuition.
+Qed.
 
 Example C12_nonvacuous_covered_class : (* the table contains covered, derived and lost classes *)
   status_of "customgov" "ProposalsPrefix" = SCovered /\ status_of "customgov" "WhitelistRolePrefix" = SDerived /\
-  status_of "multistaking" "KeyLastUndelegationId" = SLost /\ status_of "customstaking" "PendingValidatorQueue" = STransient.
+  status_of "custody" "PrefixKeyCustodyRecord" = SLost /\ status_of "customstaking" "PendingValidatorQueue" = STransient.
 Proof. vm_compute. repeat split; reflexivity. Qed.
